@@ -116,7 +116,7 @@ def showTree : GTree → String
 
 def showOutcome : DistOutcome → String
   | .belowRandom => "belowRandom" | .zeroDivision => "zeroDivision" | .infinite => "infinite"
-  | .notANumber => "notANumber" | .finite => "finite"
+  | .notANumber => "notANumber" | .negative => "negative" | .finite => "finite"
 
 /-- assign the recorded traces to the inner nodes in the order `_progressive_align` calls `align_optimal`
 (post-order) -/
